@@ -23,9 +23,9 @@ Definition dstep_ok (a : abook) (s : dbook) (o : op) : Prop :=
 (* the hypothesis on an operation at clock value [now] *)
 Definition dop_ok (now : Z) (o : op) : Prop :=
   match o with
-  | OAdd _ ttl l | OSet _ ttl l => ttl_okP ttl /\ (ttl <= 0 \/ NoDup (clean_addrs l))
+  | OAdd _ ttl _ | OSet _ ttl _ => ttl_okP ttl
   | OUpdate _ _ new => ttl_okP new
-  | OConsume _ seq _ ttl bad l => bad = true \/ (0 <= seq /\ ttl_okP ttl /\ (ttl <= 0 \/ NoDup (clean_addrs l)))
+  | OConsume _ seq _ ttl bad _ => bad = true \/ (0 <= seq /\ ttl_okP ttl)
   | OAdvance d => 0 <= d /\ whole d /\ now + d + SEC <= ConnectedAddrTTL
   | _ => True
   end.
@@ -117,16 +117,15 @@ Qed.
 
 Lemma dstep_add a s p ttl l : AInv a -> DInv s -> Rel a s -> dop_ok (d_now s) (OAdd p ttl l) -> dstep_ok a s (OAdd p ttl l).
 Proof.
-  intros HA HD HR [Hok Hnd]. unfold dstep_ok. cbn [d_step a_step]. unfold d_add, a_add.
+  intros HA HD HR Hok. unfold dstep_ok. cbn [d_step a_step]. unfold d_add, a_add.
   destruct (Z.leb_spec ttl 0) as [Ht|Ht].
   { split; [exact HA|split; [exact HD|split; [exact HR|split; [reflexivity|apply from_old_refl]]]]. }
-  destruct Hnd as [Hnd|Hnd]; [lia|].
   destruct (clean_addrs l) as [|a0 t0] eqn:El.
   { unfold add_list. cbn [fold_left d_setaddrs]. rewrite (mk_norm_self a HA).
     split; [exact HA|split; [exact HD|split; [exact HR|split; [reflexivity|apply from_old_refl]]]]. }
   rewrite <- El in *.
   assert (Hne : clean_addrs l <> []) by (rewrite El; discriminate).
-  pose proof (pspec_setaddrs s p (clean_addrs l) ttl TExtend HD Hnd Hne) as PS.
+  pose proof (pspec_setaddrs s p (clean_addrs l) ttl TExtend HD Hne) as PS.
   destruct (rel_step a s _ p _ _ _ _ _ HA HD HR (aspec_add a p ttl (clean_addrs l) HA) PS) as [HA' [HR' Hfo]].
   - intros x. now apply pt_add.
   - intros _. apply HR.
@@ -183,20 +182,19 @@ Qed.
 
 Lemma dstep_set a s p ttl l : AInv a -> DInv s -> Rel a s -> dop_ok (d_now s) (OSet p ttl l) -> dstep_ok a s (OSet p ttl l).
 Proof.
-  intros HA HD HR [Hok Hnd]. unfold dstep_ok. cbn [d_step a_step]. rewrite a_set_unfold. unfold d_set.
+  intros HA HD HR Hok. unfold dstep_ok. cbn [d_step a_step]. rewrite a_set_unfold. unfold d_set.
   destruct (Z.leb_spec ttl 0) as [Ht|Ht].
   - pose proof (pspec_deleteaddrs s p (clean_addrs l) HD) as PS.
     destruct (rel_step a s _ p _ _ _ _ _ HA HD HR (aspec_set a p ttl (clean_addrs l) HA) PS) as [HA' [HR' Hfo]].
     + intros x. now apply pt_set_neg.
     + intros _. apply HR.
     + split; [exact HA'|split; [apply PS|split; [exact HR'|split; [reflexivity|exact Hfo]]]].
-  - destruct Hnd as [Hnd|Hnd]; [lia|].
-    destruct (clean_addrs l) as [|a0 t0] eqn:El.
+  - destruct (clean_addrs l) as [|a0 t0] eqn:El.
     { unfold set_fold_a. cbn [fold_left d_setaddrs]. rewrite (mk_norm_self a HA).
       split; [exact HA|split; [exact HD|split; [exact HR|split; [reflexivity|apply from_old_refl]]]]. }
     rewrite <- El in *.
     assert (Hne : clean_addrs l <> []) by (rewrite El; discriminate).
-    pose proof (pspec_setaddrs s p (clean_addrs l) ttl TOverride HD Hnd Hne) as PS.
+    pose proof (pspec_setaddrs s p (clean_addrs l) ttl TOverride HD Hne) as PS.
     destruct (rel_step a s _ p _ _ _ _ _ HA HD HR (aspec_set a p ttl (clean_addrs l) HA) PS) as [HA' [HR' Hfo]].
     + intros x. now apply pt_set_pos.
     + intros _. apply HR.
